@@ -14,7 +14,7 @@ import json, multiprocessing, os, re, shutil, subprocess, sys, hashlib
 
 V = os.path.dirname(os.path.dirname(os.path.abspath(__file__)))
 ROOT = "/tmp/xsgv-mut"
-ALL = ["C01", "C02", "C03", "C04", "C05", "C06", "C07", "C08", "C09", "C10", "C11", "C12", "C13", "C14", "C15", "C16"]
+ALL = ["C01", "C02", "C03", "C04", "C05", "C06", "C07", "C08", "C09", "C10", "C11", "C12", "C13", "C15", "C16"]
 SRC = ["src/parser.rs", "src/element.rs", "src/element/identifier.rs", "src/necessity.rs", "src/main.rs", "src/lib.rs", "src/options.rs", "src/args.rs"]
 
 
